@@ -272,6 +272,30 @@ def rule_case_agreement(repo: Repo, rep, rule: str = "R7.9") -> None:
     fn = ns.methods.get("clean_auto_generated_operation_id") if ns is not None else None
     if fn is None:
         raise AnalysisError("anchor vanished: NameSanitizer.clean_auto_generated_operation_id")
+    umod = repo.module("core.utils")
+    # a thin alias (`return _clean(...)`) is followed to the module-level function that does the work
+    for _ in range(2):
+        body0 = [s_ for s_ in fn.node.body if not (isinstance(s_, ast.Expr) and isinstance(s_.value, ast.Constant))]  # type: ignore[attr-defined]
+        if len(body0) == 1 and isinstance(body0[0], ast.Return) and isinstance(body0[0].value, ast.Call) and isinstance(body0[0].value.func, ast.Name) \
+                and body0[0].value.func.id in umod.functions:
+            fn = umod.functions[body0[0].value.func.id]
+            continue
+        break
+    # one-parameter string helpers of the module are summarised by the shape they return for an arbitrary argument
+    summaries = {}
+    for q, hf in umod.functions.items():
+        if "." in q or hf is fn or len(hf.params) != 1:
+            continue
+        try:
+            hi = Interp(hf.node, hf.params[0])
+            hi.run()
+            if hi.returns:
+                shape = hi.returns[0][0]
+                for v, _, _ in hi.returns[1:]:
+                    shape = shape.join(v)
+                summaries[q] = (lambda _arg, _shape=shape: _shape)
+        except Exception:  # noqa: BLE001 - a helper the interpreter does not model is simply not summarised
+            pass
     L = _L(fn.node)
     sites = []
     for c in calls_in(fn.node):
@@ -301,7 +325,7 @@ def rule_case_agreement(repo: Repo, rep, rule: str = "R7.9") -> None:
         synth = ast.FunctionDef(name="_slice", args=ast.arguments(posonlyargs=[], args=[ast.arg(arg=params[0])], kwonlyargs=[], kw_defaults=[], defaults=[]),
                                 body=[clone(s) for s in keep] + [ast.Return(value=clone(other))], decorator_list=[], type_params=[])
         ast.fix_missing_locations(synth)
-        it = Interp(synth, params[0])
+        it = Interp(synth, params[0], consts=dict(summaries))
         try:
             it.run()
         except Unsupported as e:
